@@ -68,7 +68,7 @@ def strings(tier, seed):
         out += sorted(set(pairs))
         out += [(a, b) for a in cat for b in (97, 36, 92)]
         ntr = 1500
-    core3 = [(97, 36, 98), (92, 92, 92), (97, 92, 36), (91, 97, 93), (40, 63, 58), (97, 124, 98), (123, 49, 125),
+    core3 = [(97, 63, 58), (63, 58, 97), (40, 63, 58), (97, 36, 98), (92, 92, 92), (97, 92, 36), (91, 97, 93), (40, 63, 58), (97, 124, 98), (123, 49, 125),
              (97, 123, 50), (92, 40, 41), (36, 94, 36), (97, 10, 98), (91, 94, 93)]
     out += core3
     for _ in range(ntr):
@@ -80,16 +80,23 @@ def strings(tier, seed):
 def literal_configs(tier, seed):
     strs = strings(tier, seed)
     wins = [(120, 121, 122)]
-    ops = ALL_OPS | {'cond'}
+    ops = ALL_OPS | {'cond', 'unary'}
     cfgs = [spine_config('positions-x-strings', wins, 1, ops, {'strs', 'pregexstrs', 'minpool'},
-                         quants=QUANTS_SMALL, strs=strs, params={'only_tags': None})]
+                         quants=QUANTS_SMALL, strs=strs)]
+    # strings that look like group / quantifier / class syntax, under two nested group or quantifier calls
+    syn = [(97, 63, 58, 98), (40, 63, 58, 97, 41), (40, 63, 80, 60, 110, 62, 97, 41), (63, 58), (40, 63, 105, 58, 97, 41), (97, 123, 50, 125),
+           (91, 97, 45, 122, 93), (40, 97, 41), (92, 49), (97, 124, 98), (40, 63, 61, 97, 41), (94, 97, 36), (92, 98)]
+    if tier != 'quick':
+        syn += [x for x in strs if len(x) == 2][:400]
+    cfgs.append(spine_config('syntax-like-strings-nested', wins, 2 if tier == 'quick' else 3, {'group', 'quant', 'unary'},
+                             {'strs', 'minpool'}, quants=QUANTS_TWO | {('Exactly', 2, 2, True)}, strs=syn))
     return cfgs
 
 
 # ----------------------------------------------------------------------------- C04
 def quant_configs(tier, seed):
     wins = UV.windows(tier, seed)
-    vals = [0, 1, 2, 3, -1, -2, -3, -4, -5]
+    vals = [0, 1, 2, 3, -1, -2, -3, -4, -5, -6, -7, -8]
     quants = set()
     for g in (True, False):
         quants |= {('Optional', 0, 1, g), ('Indefinite', 0, -1, g), ('OneOrMore', 1, -1, g)}
@@ -100,8 +107,10 @@ def quant_configs(tier, seed):
     for n in vals:
         quants |= {('Exactly', n, n, True), ('Mul', n, n, True)}
     pool = {'empty', 'class', 'alt', 'cat', 'quant', 'group', 'token', 'focusall', 'pregex'}
+    qq = {q for q in quants if q[1] >= -1 and q[2] >= -1 and q[1] <= 2 and q[2] <= 2}
     if tier == 'quick':
-        return [spine_config('quant-lattice', wins[:2], 1, {'quant'}, pool, quants=quants, params={'deep': True})]
+        return [spine_config('quant-lattice', wins[:2], 1, {'quant'}, pool, quants=quants, params={'deep': True}),
+                spine_config('quant-of-quant', wins[:1], 2, {'quant'}, {'class'}, quants=qq, params={'deep': True})]
     return [spine_config('quant-lattice', wins[:12], 1, {'quant'}, pool | {'lit3', 'wb', 'assert'}, quants=quants, params={'deep': True}),
             spine_config('quant-of-quant', wins[:3], 2, {'quant'}, {'class', 'alt'},
                          quants={q for q in quants if q[1] >= -1 and q[2] >= -1 and q[1] <= 2 and q[2] <= 2}, params={'deep': True})]
@@ -110,9 +119,10 @@ def quant_configs(tier, seed):
 # ----------------------------------------------------------------------------- C05
 def empty_configs(tier, seed):
     wins = UV.windows(tier, seed)
+    wins = [wins[2], wins[0], wins[1]] + wins[3:]          # '|' first: the separator of Either
     pool = {'empty', 'emptyforms', 'class', 'alt', 'quant', 'group', 'assert'}
     if tier == 'quick':
-        return [spine_config('empty-depth1', wins[:2], 1, ALL_OPS | {'cond'}, pool | {'focusall'}),
+        return [spine_config('empty-depth1', wins[:3], 1, ALL_OPS | {'cond', 'unary'}, pool | {'focusall'}),
                 spine_config('empty-depth2', wins[:1], 2, ALL_OPS - {'enclose', 'look'}, {'empty', 'emptyforms'}, quants=QUANTS_TWO, names=())]
     return [spine_config('empty-depth1', wins[:10], 1, ALL_OPS | {'cond'}, pool | {'focusall', 'token', 'wb'}),
             spine_config('empty-depth2', wins[:3], 2, ALL_OPS, {'empty', 'emptyforms', 'class'}, quants=QUANTS_TWO),
@@ -122,12 +132,15 @@ def empty_configs(tier, seed):
 # ----------------------------------------------------------------------------- C08
 def group_configs(tier, seed):
     wins = UV.windows(tier, seed)
-    pool = {'parens', 'looks', 'refs', 'alt', 'quant', 'group', 'focusall', 'minpool'}
+    pool = {'parens', 'looks', 'refs', 'alt', 'quant', 'group', 'nested', 'focusall', 'minpool'}
+    ctxwins = [(97, 41, 40), (97, 40, 63)] + wins
     if tier == 'quick':
         return [spine_config('group-nesting-3', wins[:2], 3, {'group'}, pool, names=('n', 'm')),
-                spine_config('group-in-context', wins[:1], 2, {'group', 'concat', 'either', 'quant'}, {'group', 'alt', 'focusall'}, quants=QUANTS_TWO, names=('n', 'm'))]
+                spine_config('group-in-context', ctxwins[:2], 2, {'group', 'concat', 'either', 'quant'}, {'group', 'alt', 'nested', 'focusall'}, quants=QUANTS_TWO, names=('n', 'm')),
+                spine_config('group-concat-group', ctxwins[:1], 3, {'group', 'concat'}, {'nolit'}, names=('n',))]
     return [spine_config('group-nesting-4', wins[:6], 4, {'group'}, pool, names=('n', 'm')),
-            spine_config('group-in-context', wins[:3], 3, {'group', 'concat', 'either', 'quant'}, {'group', 'alt', 'focusall'}, quants=QUANTS_TWO, names=('n', 'm'))]
+            spine_config('group-in-context', ctxwins[:4], 3, {'group', 'concat', 'either', 'quant'}, {'group', 'alt', 'nested', 'focusall'}, quants=QUANTS_TWO, names=('n', 'm')),
+            spine_config('group-concat-group', ctxwins[:3], 4, {'group', 'concat'}, {'nolit'}, names=('n',))]
 
 
 # ----------------------------------------------------------------------------- C09
@@ -144,7 +157,7 @@ def repeat_configs(tier, seed):
             spine_config('quantify-assertions', wins[:1] if tier == 'quick' else wins[:8], 2,
                          {'quant', 'anchor', 'look', 'group', 'either'} if tier == 'quick' else ALL_OPS,
                          {'empty', 'wb'} if tier == 'quick' else {'empty', 'class', 'wb', 'alt', 'token'},
-                         quants={q for q in quants if q[0] in ('Optional', 'OneOrMore', 'Exactly', 'Mul', 'AtMost')} if tier == 'quick' else quants)]
+                         quants=quants)]
     return cfgs
 
 
@@ -156,6 +169,8 @@ def width_configs(tier, seed):
     pool = {'class', 'alt', 'quant', 'group', 'assert', 'token', 'wb', 'empty'}
     if tier == 'quick':
         return [spine_config('lookbehind-depth2', wins[:2], 2, {'look', 'quant', 'either', 'concat', 'group'}, {'class'}, quants=quants, names=()),
+                spine_config('lookbehind-of-derived', wins[:1], 2, {'look', 'quant'}, {'minpool', 'alt', 'quant', 'focusall'},
+                             quants={('Optional', 0, 1, True), ('Exactly', 2, 2, True), ('AtLeastAtMost', 1, 2, True), ('Mul', 3, 3, True)}, names=()),
                 spine_config('lookbehind-pool', wins[:3], 1, {'look'}, pool | {'focusall', 'lit3'}, quants=quants)]
     return [spine_config('lookbehind-depth2', wins[:8], 2, ALL_OPS, {'class', 'alt', 'empty'}, quants=quants, names=()),
             spine_config('lookbehind-pool', wins, 1, {'look'}, pool | {'focusall', 'lit3'}, quants=quants),
